@@ -86,7 +86,7 @@ func (m *Model) startAt(starts []*Node, a *activation) {
 }
 
 func (m *Model) evalCond(c *Cond) bool {
-	if c == nil {
+	if c == nil || c.Informal {
 		return true
 	}
 	switch {
